@@ -484,7 +484,7 @@ func (v *LogScopeVariables) Set(s context.Scope, name, operator string, val valu
 func (v *LogScopeVariables) Add(s context.Scope, name string, val value.Value) error {
 	// Add statement could be use only for HTTP header
 	match := responseHttpHeaderRegex.FindStringSubmatch(name)
-	if match != nil {
+	if match == nil {
 		// Nothing values to be enable to add in PASS, pass to base
 		return v.base.Add(s, name, val)
 	}
